@@ -76,7 +76,8 @@ func Harness_C20_solve2() {
 // Harness_C20_solve3: cubic with non-vanishing leading coefficient, discriminant >= 0 (Cardano
 // branch; the trigonometric branch disc < 0 is outside the claim).
 func Harness_C20_solve3() {
-	a, b, c, d := vhReal("a", -4, 4), vhReal("b", -4, 4), vhReal("c", -4, 4), vhReal("d", -4, 4)
+	cr := float64(vhConst("CRANGE"))
+	a, b, c, d := vhReal("a", -cr, cr), vhReal("b", -cr, cr), vhReal("c", -cr, cr), vhReal("d", -cr, cr)
 	x := vhReal("x", -1000, 1000)
 	vhAssume(!aeq0(a))
 	// same discriminant as the code computes
@@ -110,14 +111,15 @@ func Harness_C20_solve3() {
 // introduced by the triple-angle identity (engine stub), sqrt/cbrt by their defining equations.
 // A and B3 (= b/3 numerator) may be fixed by cube constants (AFIX/BFIX != 0 selects the table value).
 func Harness_C20_solve3trig() {
-	a, b := vhReal("a", -4, 4), vhReal("b", -4, 4)
+	cr := float64(vhConst("CRANGE"))
+	a, b := vhReal("a", -cr, cr), vhReal("b", -cr, cr)
 	if k := vhConst("AFIX"); k != 0 {
 		a = float64(vhConst("ANUM")) / float64(vhConst("ADEN"))
 	}
 	if k := vhConst("BFIX"); k != 0 {
 		b = float64(vhConst("BNUM")) / float64(vhConst("BDEN"))
 	}
-	c, d := vhReal("c", -4, 4), vhReal("d", -4, 4)
+	c, d := vhReal("c", -cr, cr), vhReal("d", -cr, cr)
 	vhAssume(!aeq0(a))
 	b3a := b / (3 * a)
 	p := b3a * b3a
@@ -252,9 +254,9 @@ func Harness_C20_intersect() {
 	}
 	vhAssume(!vhGray(co))
 	if vhConst("SUMMARY_SOLVE3") == 1 {
-		// the root finder's contract is established for coefficients in [-4,4]
+		// the root finder's contract is established for coefficients in [-1000,1000]
 		for _, v := range co {
-			vhAssume(v >= -4 && v <= 4)
+			vhAssume(v >= -1000 && v <= 1000)
 		}
 	}
 
